@@ -365,7 +365,14 @@ impl Model {
                 self.out.push((self.now, true, k.clone()));
             }
         }
-        self.prev_keys = cur;
+        // (one OS release per key, however many entries held it down)
+        let mut cur_dedup: Vec<String> = vec![];
+        for k in cur {
+            if !cur_dedup.contains(&k) {
+                cur_dedup.push(k);
+            }
+        }
+        self.prev_keys = cur_dedup;
     }
 
     fn run(&mut self, ops: &[Op]) {
